@@ -179,6 +179,9 @@ func TestGrid(t *testing.T) {
 					fail(h, idx, vk.Failf("path-to-index-full", "PathToIndex(full h=%d, %#x) = %d, want %d", h, want, back, idx))
 				}
 				evals++
+				if idx&0xfff == 0 {
+					checker.Remember(Case{H: h, Index: idx})
+				}
 				idx++
 				if l < h {
 					prefix <<= 1
